@@ -42,6 +42,9 @@ Chars(x) == CASE x = ""   -> <<>>          [] x = "%"  -> <<"%">>      [] x = "A
               [] x = "_b" -> <<"_","b">>   [] x = "%%" -> <<"%","%">>  [] x = "__" -> <<"_","_">>
               [] x = "a%b" -> <<"a","%","b">>
 StrIdx(x) == CHOOSE i \in 1..Len(StrOrder) : StrOrder[i] = x
+\* the first n characters of a string of the universe (prefix-length indexes)
+PrefixStr(x, n) == IF n <= 0 \/ Len(Chars(x)) <= n THEN x
+                   ELSE CHOOSE y \in { StrOrder[i] : i \in 1..Len(StrOrder) } : Chars(y) = SubSeq(Chars(x), 1, n)
 \* LIKE with % (any run) and _ (any single character); case-sensitive
 RECURSIVE LikeM(_,_)
 LikeM(s, p) == IF p = <<>> THEN s = <<>>
@@ -88,6 +91,9 @@ RECURSIVE SumQ(_)           \* exact rational sum of a sequence of numeric value
 SumQ(vs) == IF vs = <<>> THEN Q(0,1) ELSE Arith("+", Head(vs), SumQ(Tail(vs)))
 RECURSIVE SetToSeq(_)      \* ascending sequence of a finite set of integers
 SetToSeq(ss) == IF ss = {} THEN <<>> ELSE LET x == CHOOSE x \in ss : \A y \in ss : x <= y IN <<x>> \o SetToSeq(ss \ {x})
+
+RECURSIVE SetToSeqAny(_)   \* some enumeration of a finite set
+SetToSeqAny(ss) == IF ss = {} THEN <<>> ELSE LET x == CHOOSE x \in ss : TRUE IN <<x>> \o SetToSeqAny(ss \ {x})
 
 \* ---------- expressions ----------
 \* frame = [cols |-> Seq([q |-> alias, c |-> column]), row |-> Row]; env = Seq(frame), innermost first
